@@ -44,6 +44,7 @@ def register(reg):
     reg.add(g, Contract(MOD + ":BinaryTrie._get", ["self", "node_hash", "keypath"], get_cases, setup=get_setup,
                         requires=get_requires, props=("C12", "C13")))
     _register_write(reg)
+    _register_api(reg)
 
 
 # _hash_and_save -------------------------------------------------------------------------------------
@@ -143,10 +144,18 @@ def set_cases(E, ctx):
         if unit_mode:
             q = E.ghost["q0"]
             BM.unfold_blk(E, h, q)
-            BM.unfold_blk(E, rt, q)
+            BM.unfold_blk(E, rt, q, depth=3)
             BM.decompose(E, k, BM.parts_of(E, h).path)
             from contracts import seqlemmas as SL
-            SL.key_pair_facts(E, k, q, BM.parts_of(E, h).path)
+            P = BM.parts_of(E, h).path
+            SL.key_pair_facts(E, k, q, P)
+            for (ta, tb, rterm) in E.ghost.get("gcpl", []):
+                # the kv node was split at the index where its path and the key diverge
+                SL.split_point_facts(E, P, k, q, rterm, Kp=tb)
+                for s_ in (P, k, q):        # definition of allbit at the divergence index
+                    E.assume(mk_bool(z3.simplify(z3.Implies(z3.And(allbit(s_), rterm >= 0, rterm < z3.Length(s_)),
+                                                            z3.Or(s_[rterm] == 0, s_[rterm] == 1)))))
+                E.assume(mk_bool(z3.simplify(z3.Implies(z3.Length(tb) == z3.Length(P), z3.Length(k) >= z3.Length(P)))))
             out.append(("view", mk_bool(BM.blk(rt, q) == view_after(h, k, v, subt, q))))
         else:
             E.ghost.setdefault("view_rules", []).append(
@@ -170,3 +179,95 @@ def _register_write(reg):
                         requires=has_requires, props=("C12", "C04")))
     reg.add(g, Contract(MOD + ":BinaryTrie._set", ["self", "node_hash", "keypath", "value", "if_delete_subtrie"], set_cases,
                         setup=set_setup, requires=set_requires, props=("C12",)))
+
+
+# public API -------------------------------------------------------------------------------------------
+def api_key(E):
+    key = E.fresh_seq("key", "bytes")
+    return key
+
+
+def key_bits(E, key):
+    """bits(key) as the contract of encode_to_bin gives it"""
+    from contracts.binaries_c import s_bits
+    return s_bits(E, key)
+
+
+def api_get_setup(E):
+    return {"self": BM.mk_trie(E), "key": api_key(E)}
+
+
+def api_get_cases(E, ctx):
+    db = ctx.self.fields["db"]
+    H = ctx.old_has(db)
+    root = ops.seq_term_as(ctx.old_field(ctx.self, "root_hash"), "int")
+    kb = key_bits(E, ctx.key).t
+    av = BM.bavail(H, root, kb)
+    return [Case("lookup", when=mk_bool(av), returns=lambda: E.from_pyval(BM.blk(root, kb))),
+            Case("missing-node", when=mk_bool(z3.Not(av)), raises=KeyError)]
+
+
+def api_exists_cases(E, ctx):
+    db = ctx.self.fields["db"]
+    H = ctx.old_has(db)
+    root = ops.seq_term_as(ctx.old_field(ctx.self, "root_hash"), "int")
+    kb = key_bits(E, ctx.key).t
+    av = BM.bavail(H, root, kb)
+    return [Case("answer", when=mk_bool(av), returns=lambda: mk_bool(BM.blk(root, kb) != PyVal.PNone)),
+            Case("missing-node", when=mk_bool(z3.Not(av)), raises=KeyError)]
+
+
+def api_set_setup(E, with_value=True):
+    t = BM.mk_trie(E)
+    key = api_key(E)
+    E.assume(mk_bool(z3.Length(key.t) > 0))            # the property is stated for non-empty keys
+    args = {"self": t, "key": key}
+    if with_value:
+        args["value"] = E.fresh_seq("value", "bytes")
+    q0 = bits(E, "q0")
+    E.ghost["q0"] = q0.t
+    return args
+
+
+def api_update_cases(mode):
+    def cases(E, ctx):
+        s = ctx.self
+        db = s.fields["db"]
+        root = ops.seq_term_as(ctx.old_field(s, "root_hash"), "int")
+        kb = key_bits(E, ctx.key).t
+        v = ops.seq_term_as(ctx.value, "int") if mode == "set" else z3.Empty(SeqI)
+        subt = z3.BoolVal(mode == "delete_subtrie")
+        x = z3.Const("x!grow", SeqI)
+
+        def grows():
+            return z3.ForAll([x], z3.Implies(z3.Select(ctx.old_has(db), x),
+                                             z3.And(z3.Select(db.has, x), z3.Select(db.val, x) == z3.Select(ctx.old_val(db), x))),
+                             patterns=[z3.Select(db.has, x), z3.Select(db.val, x)])
+
+        def post_ok():
+            new = ops.seq_term_as(s.fields["root_hash"], "int")
+            q = E.ghost["q0"]
+            BM.apply_rules_at(E, new, q)
+            return [("root-is-a-hash", mk_bool(z3.Length(new) == 32)),
+                    ("view", mk_bool(BM.blk(new, q) == view_after(root, kb, v, subt, q))),
+                    ("store-only-grows", mk_bool(grows()))]
+
+        def post_fail():
+            return [("store-only-grows", mk_bool(grows()))]      # root_hash unchanged: frame obligation
+        return [Case("updated", returns=lambda: None, post=post_ok, modifies=[db, (s, "root_hash")]),
+                Case("refused", raises=nov(E), post=post_fail, modifies=[db]),
+                Case("missing-node", raises=KeyError, post=post_fail, modifies=[db])]
+    return cases
+
+
+def _register_api(reg):
+    g = "binary_api"
+    T = MOD + ":BinaryTrie."
+    reg.add(g, Contract(T + "get", ["self", "key"], api_get_cases, setup=api_get_setup, props=("C12", "C13")))
+    reg.add(g, Contract(T + "exists", ["self", "key"], api_exists_cases, setup=api_get_setup, props=("C12",)))
+    reg.add(g, Contract(T + "set", ["self", "key", "value"], api_update_cases("set"),
+                        setup=lambda E: api_set_setup(E, True), props=("C12",)))
+    reg.add(g, Contract(T + "delete", ["self", "key"], api_update_cases("delete"),
+                        setup=lambda E: api_set_setup(E, False), props=("C12",)))
+    reg.add(g, Contract(T + "delete_subtrie", ["self", "key"], api_update_cases("delete_subtrie"),
+                        setup=lambda E: api_set_setup(E, False), props=("C12",)))
